@@ -22,7 +22,13 @@ NoiseNone == {}
 \* bound (k3: it shows which reading of such lines the parser follows): duplicates in every combination of the
 \* line forms  k=v / k= / k , in one block and -- the domain re-opened -- in two
 NoiseBare == {L("key", "k1", ""), L("key", "k3", "")}
+\* lines whose key part is empty or consists of blanks only: "=" alone, "==", "= v" with a plain value, with a value that
+\* contains '=' / blanks / '#', with a value that is itself the name of a key bound elsewhere (the driver writes blanks
+\* before the '=' as the line's leading blanks and after it).  Each is a written line: an entry of the line listing.
+NoiseEmptyKey == {L("nokey", "", ""), L("nokey", "", "="), L("nokey", "", "zz"), L("nokey", "", "x=y"), L("nokey", "", "k1"),
+                  L("nokey", "", "tcp -h 10.0.0.1 -p 9000"), L("nokey", "", "#c")}
 NoiseAllBare == NoiseAll \cup {L("key", "k1", ""), L("key", "k2", "")}
+                         \cup {L("nokey", "", ""), L("nokey", "", "="), L("nokey", "", "k1"), L("nokey", "", "tcp -h 10.0.0.1 -p 9000")}
 HosAll == {L("hos", "k1", "x&y"), L("hos", "k2", "1<2"), L("hos", "k2", "2>1"), L("hos", "k1", "@CTL"), L("hcomment", "", " a&b"),
            L("hcomment", "", " see <url>")}
 HosTwo == {L("hos", "k1", "x&y"), L("hos", "k2", "1<2")}
